@@ -1,10 +1,13 @@
 """C19 — load_schema from per-type files is equivalent to parsing the same
 types inlined at their first use; load_schema_ordered; missing files."""
 import copy
+import datetime as dt
+import decimal
 import io
 import json
 import os
 import shutil
+import uuid
 
 from ..harness import Shard, rng_for, h64, printable, guard, exc_name
 from ..gen.datum import DatumGen
@@ -37,7 +40,8 @@ REACH = {
     "quick": {"repositories": 1000, "diamonds": 100, "type_used_3_times": 100, "relative_refs_cross_file": 100,
               "site_field": 100, "site_array": 100, "site_map": 100, "site_union": 100, "missing_file_cases": 2000,
               "ordered_loads": 1500, "bytes_compared": 2000,
-              "dotted_name_definitions": 300, "same_type_twice_in_union": 300},
+              "dotted_name_definitions": 300, "same_type_twice_in_union": 300,
+              "loaded_by_name_through_repo": 1000, "loaded_by_name_namespaced_root": 300, "logical_values_encoded": 300},
     "thorough": {"repositories": 30000},
 }
 NAMESPACES = ["", "org.a", "org.a.b", "zz"]
@@ -115,7 +119,12 @@ def gen_repo(rng):
                     edges.append((full, dst, site, sp))
                 else:
                     f["type"] = rng.choice(["int", "string", "boolean", {"type": "array", "items": "long"}, ["null", "double"],
-                                            {"type": "string"}, {"type": "map", "values": {"type": "bytes"}}, ["null", {"type": "long"}]])
+                                            {"type": "string"}, {"type": "map", "values": {"type": "bytes"}}, ["null", {"type": "long"}],
+                                            # annotated primitives: what they carry besides the type name matters to the encoding of logical values
+                                            {"type": "long", "logicalType": "timestamp-millis"}, {"type": "int", "logicalType": "date"},
+                                            {"type": "bytes", "logicalType": "decimal", "precision": 6, "scale": 2},
+                                            {"type": "string", "logicalType": "uuid"}, ["null", {"type": "long", "logicalType": "time-micros"}],
+                                            {"type": "array", "items": {"type": "long", "logicalType": "timestamp-micros"}}])
                 fields.append(f)
             js["fields"] = fields
         types[full] = js
@@ -192,6 +201,17 @@ def topo_orders(types, root, edges, rng):
     return orders
 
 
+def _leaves(x):
+    if isinstance(x, dict):
+        for v in x.values():
+            yield from _leaves(v)
+    elif isinstance(x, (list, tuple)):
+        for v in x:
+            yield from _leaves(v)
+    else:
+        yield x
+
+
 def wb(fa, schema, d):
     out = io.BytesIO()
     fa.schemaless_writer(out, schema, d)
@@ -255,12 +275,34 @@ def one_repo(sh, fa, rng, scratch, idx):
             except Exception:
                 b3s = None
             def agrees(b):
-                return b1 == b or RB.strip_spans(RB.decode_all(node, b1)) == RB.strip_spans(RB.decode_all(node, b))
+                from .c09 import canon_decimals  # a decimal's bytes need not be of minimal length
+                return b1 == b or RC.same(canon_decimals(node, RB.strip_spans(RB.decode_all(node, b1))), canon_decimals(node, RB.strip_spans(RB.decode_all(node, b))))
             if st == "exc" or st2 == "exc" or b1 != b2 or (b3s is not None and not any(agrees(b) for b in b3s)):
                 sh.violation("encoding-differs", "loaded: %s, inlined: %s" % (exc_name(b1) if st == "exc" else b1[:40].hex(), exc_name(b2) if st2 == "exc" else b2[:40].hex()),
                              dict(info, datum=x))
                 return
             sh.count("bytes_compared")
+            if any(isinstance(v, (dt.date, dt.time, decimal.Decimal, uuid.UUID)) for v in _leaves(x)):
+                sh.count("logical_values_encoded")
+        # the same repository addressed by full name through an explicitly passed repository object
+        from fastavro.repository import FlatDictRepository
+        st, by_name = guard(load_schema, root, repo=FlatDictRepository(d))
+        if st == "exc":
+            sh.violation("load-raised", "load_schema(%r, repo=FlatDictRepository(dir)) raised %s on a complete repository" % (root, exc_name(by_name)), dict(info, by_name=True))
+            return
+        st, got = guard(to_parsing_canonical_form, by_name)
+        if st == "exc" or got != want_pcf:
+            sh.violation("loaded-schema-differs", "loaded by name through repo=: %s, inlined model %s" % (exc_name(got) if st == "exc" else got[:300], want_pcf[:300]), dict(info, by_name=True))
+            return
+        for x in data[:1]:
+            st, b1 = guard(wb, fa, by_name, x)
+            st2, b2 = guard(wb, fa, copy.deepcopy(model), x)
+            if st == "exc" or st2 == "exc" or b1 != b2:
+                sh.violation("encoding-differs", "loaded by name through repo=: %s, inlined: %s" % (exc_name(b1) if st == "exc" else b1[:40].hex(), exc_name(b2) if st2 == "exc" else b2[:40].hex()), dict(info, datum=x, by_name=True))
+                return
+        sh.count("loaded_by_name_through_repo")
+        if "." in root:
+            sh.count("loaded_by_name_namespaced_root")
         for order in topo_orders(types, root, edges, rng):
             paths = [os.path.join(d, t + ".avsc") for t in order]
             st, lo = guard(load_schema_ordered, paths)
